@@ -170,8 +170,20 @@ Fixpoint unroll (f : nat) (cf : mconf) (ev : env) (its : list item) : option (li
       match value_at cf ev [] 0 cnt with
       | MV n =>
         (* the stream after the block start: the instances, then the rest; labels go to its first instruction *)
-        match unroll f' cf ev (repeat_items (Z.to_nat n) 1 (items_size body) c body ++ t) with
-        | Some r => attach ls r
+        let inst := repeat_items (Z.to_nat n) 1 (items_size body) c body in
+        match unroll f' cf ev (inst ++ t) with
+        | Some r =>
+          match ls with
+          | [] => Some r
+          | _ =>
+            (* block labels are the labels of the first instruction the block emits; when it emits
+               none (count zero, or no instruction in the body) the property does not say what they are *)
+            match unroll f' cf ev inst with
+            | Some ri => if existsb (fun it => match it with IInstr _ => true | _ => false end) ri
+                         then attach ls r else None
+            | None => None
+            end
+          end
         | None => None
         end
       | _ => None
